@@ -74,6 +74,17 @@ func NewValue(typ *meta.Type, v interface{}) (val.Value, error) {
 		return toEnumList(typ.Enum(), v)
 	case val.FmtUnion:
 		cvt, _, err := val.ConvOneOf(typ.UnionFormats(), v)
+		if err != nil {
+			// members that need the schema to be converted: identityref, enumeration, bits ...
+			for _, member := range typ.Union() {
+				switch member.Format() {
+				case val.FmtIdentityRef, val.FmtEnum, val.FmtBits, val.FmtLeafRef, val.FmtUnion:
+					if fromMember, memberErr := NewValue(member, v); memberErr == nil && fromMember != nil {
+						return fromMember, nil
+					}
+				}
+			}
+		}
 		return cvt, err
 	case val.FmtUnionList:
 		return toUnionList(typ, v)
